@@ -36,7 +36,9 @@ func (x *Exec) check(st *State, goal *Term, kind, clause, site, text string) {
 	}
 	o := &Oblig{Name: name, Fn: x.curFn, Kind: kind, Clause: clause, Site: site, Text: text, Goal: goal, Bounded: st.bounded}
 	v := Unknown
-	if !goal.isFalse() || true {
+	if !hasQuant(goal) {
+		// quantified goals go straight to the raced solvers: in the incremental session they
+		// routinely run into its watchdog
 		v = x.sess.CheckWith(Not(goal))
 	}
 	if v == Unsat {
@@ -376,6 +378,21 @@ func (x *Exec) loopWrites(st *State, fr *Frame, h int, li *loopInfo) (all bool, 
 				case ssa.CallInstruction:
 					c := in.Common()
 					if c.IsInvoke() {
+						tn := c.Value.Type().String()
+						if tn == "github.com/chrislusf/seaweedfs/weed/storage/backend.BackendStorageFile" || tn == "io.ReaderAt" || tn == "io.WriterAt" {
+							// built-in file model: what each method writes
+							switch c.Method.Name() {
+							case "ReadAt":
+								keys["E|uint8|"] = SInt
+								continue
+							case "WriteAt":
+								keys["E|$filebytes|"] = SInt
+								keys[fileSizeKey] = SInt
+								continue
+							case "GetStat":
+								continue
+							}
+						}
 						if ec := x.externFor(c); ec != nil && len(ec.of("modifies", -1)) == 0 {
 							continue
 						}
@@ -398,6 +415,15 @@ func (x *Exec) loopWrites(st *State, fr *Frame, h int, li *loopInfo) (all bool, 
 						}
 					case *ssa.Function:
 						if x.isNoEffectModel(f) {
+							continue
+						}
+						switch f.String() {
+						case "(*os.File).ReadAt":
+							keys["E|uint8|"] = SInt
+							continue
+						case "(*os.File).WriteAt":
+							keys["E|$filebytes|"] = SInt
+							keys[fileSizeKey] = SInt
 							continue
 						}
 						if cc := x.contractFor(f); cc != nil {
